@@ -392,7 +392,17 @@ func runVT(idx int, beh behaviour, seed int64) *caseRec {
 					o.acceptAt = ms()
 					o.mlog = append(o.mlog, mrec{M: "Open", N: []int64{}})
 				})
-				handler.Handle(context.Background(), srv, &recMetrics{b: b, c: 1})
+				func() {
+					// as StreamServe does (tcp.go:247-256): deferred close of the connection, recovered panic
+					defer func() {
+						if rv := recover(); rv != nil {
+							b.mu.Lock()
+							b.panics++
+							b.mu.Unlock()
+						}
+					}()
+					handler.Handle(context.Background(), srv, &recMetrics{b: b, c: 1})
+				}()
 				srv.Close() // StreamServe's deferred clientConn.Close()
 				b.update(1, func(o *connObs) { o.handled = true })
 			}()
@@ -549,6 +559,9 @@ func runVT(idx int, beh behaviour, seed int64) *caseRec {
 	r.Mlog = append(r.Mlog, o.mlog...)
 	r.Dials = o.dials
 	r.Handled = o.handled
+	if b.panics > 0 {
+		r.Stalls = append(r.Stalls, "the handler panicked (recovered as StreamServe would)")
+	}
 	r.Tcl, r.Crst, r.WCPL, r.AfterClose = cc.tcl, cc.crst, cc.wcpl, cc.afterClose
 	r.DialAddrs = append(r.DialAddrs, o.dialAddrs...)
 	r.AcceptAt, r.CloseAt = o.acceptAt, o.closeAt
